@@ -261,6 +261,20 @@ func init() {
 		Assumptions: []string{"consts.MaxMatchSetLen lowered to 32 (it is a variable; all tables are sized from it)"},
 		QuickBudget: 10 * time.Minute, ThoroughBudget: 60 * time.Minute,
 	}
+	checks["C09"] = &CheckDef{
+		Pkgs: []string{"./control"}, Splice: true,
+		Harness: []string{"control:Verif_C09_forwarder_lifetime", "control:Verif_C09_cached_reply_id", "control:Verif_C09_udp_upstream_id"},
+		MaxIter: 2000,
+		Level:   "other",
+		LevelText: "Three clauses of the property on the real code. (1) 'A retired upstream connection is closed exactly once, after its last in-flight query': cachedDnsForwarder.beginUse / endUse / retire / closeNow with two borrowing queries and a retirement as goroutines under schedule exploration (every interleaving at blocking points plus up to two preemptions at any atomic operation, schedules as symbolic inputs): an admitted query never sees its forwarder closed, the forwarder is closed exactly once when retired and idle, a retired forwarder admits nobody. (2) 'Each reply carries that client's transaction ID': DnsController.writeCachedResponse on an arbitrary packed answer (12-20 symbolic bytes) and an arbitrary client ID: the datagram sent is the cached answer with exactly the first two bytes replaced, from the queried server's address to the client, and the cached bytes are untouched. (3) 'Whatever an upstream does (answer late, twice, for a different question)': DoUDP.ForwardDNS with the real connection pool against a model socket delivering up to three datagrams with arbitrary IDs: exactly the first datagram carrying the request's ID is returned, none is made up otherwise. A genuine defect was found with this check and repaired (see known_findings.json): endUse could close a retired forwarder under a query admitted just before the retirement.",
+		LevelNote: "Partial claim. Not covered: the concurrent Handle path as a whole (singleflight coalescing and per-waiter copies, TCP pipelining with ID reuse, UDP->TCP fallback, caching under the right key - the last is covered from the cache side by C07/C08). Trusted: go/ssa, executor and its thread model (switches only at synchronisation operations), z3, miekg/dns Pack/Unpack as executed.",
+		Technique: techniqueText,
+		Explanation: "Bounded symbolic execution and schedule exploration of DNS reply ID handling, upstream ID filtering and forwarder lifetime.",
+		Bounds: map[string]string{"quick": "2 borrowers + 1 retire, <=2 preemptions; cached answers of 12/16/20 symbolic bytes, symbolic 16-bit IDs; 1-3 upstream datagrams with symbolic IDs", "thorough": "same (3 preemptions are out of reach within the budget)"},
+		Outside: []string{"singleflight coalescing and waiter fan-out", "pipelined TCP / DoT / DoH / DoQ forwarders", "UDP to TCP fallback", "ID collisions between concurrent clients on one pooled socket (each borrower owns its socket while it waits)"},
+		Assumptions: []string{"goroutines switch only at synchronisation operations", "sendPkt replaced by a recorder; the upstream socket is a model that returns the given datagrams then times out"},
+		QuickBudget: 10 * time.Minute, ThoroughBudget: 60 * time.Minute,
+	}
 	checks["ZZ"] = &CheckDef{
 		Pkgs: []string{"./zz_selftest"}, Hidden: true,
 		Harness: []string{"zz_selftest:Verif_Self_lost_update", "zz_selftest:Verif_Self_cas_ok"},
